@@ -155,6 +155,11 @@ func runReflect(cfg *Cfg) {
 		bufs[i] = nil
 	}
 	wg.Wait()
+	rb := newTbuf()
+	if p, pm := guard(func() { requiredPass(rb) }); p {
+		rb.Violate("HARNESS", "required-pass-panic", pm, "required-pass")
+	}
+	rb.flush(out)
 }
 
 func reflectTarget(b *tbuf, t *Target, seed, idx uint64, rc *reflCfg) {
